@@ -1,11 +1,11 @@
 #!/bin/bash
-# MANIFEST.setup_cmd: build the Lean library (all property theorems) and every model driver, offline.
+# MANIFEST.setup_cmd: build the Lean property modules and model drivers of every registered check (file READY), offline.
 set -e
 here="$(cd "$(dirname "${BASH_SOURCE[0]}")" && pwd)"
 cd "$here/lean"
-targets="PoxModel"
-for f in Drivers/C*.lean; do
-  n=$(basename "$f" .lean | tr 'A-Z' 'a-z')
-  targets="$targets drv_$n"
+targets=""
+for p in $(cat "$here/READY"); do
+  n=$(echo "$p" | tr 'A-Z' 'a-z')
+  targets="$targets PoxModel.Properties.$p drv_$n"
 done
 lake build $targets
